@@ -9,10 +9,12 @@
    paragraph rendering is free of empty lines (proved for encoded formatted values only; given
    that, the rendering is proved to split back into exactly as many paragraphs), and the
    composition into whole documents: render . parse . render = render, equality of the
-   dictionary forms; decided by co-execution and by the executable statement). *)
+   dictionary forms after a render-parse cycle; decided by co-execution and by the executable
+   statement.  Proved at paragraph level: from_dict(to_dict(p)).to_dict() = to_dict(p) given the
+   per-field stability above). *)
 From Coq Require Import String.
 From Coq Require Import NArith List Bool.
-From DI Require Import Result PyStr PyStrFacts Codec CodecFacts Deb822 Debcon Copyright Grammar822 Grammar822Facts WordFacts RenderFacts.
+From DI Require Import Result PyStr PyStrFacts Codec CodecFacts Deb822 Debcon Copyright Grammar822 Grammar822Facts WordFacts ConserveFacts RenderFacts FromDictFacts.
 Import ListNotations.
 Open Scope N_scope.
 
@@ -76,6 +78,21 @@ Theorem C13_no_empty_line_in_formatted_value : forall t, exists hd conts,
   no_lb is_linebreak hd /\ Forall (fun l => no_lb is_linebreak l /\ all_space l = false) conts.
 Proof. exact safe_text. Qed.
 Print Assumptions C13_no_empty_line_in_formatted_value.
+
+(* rebuilding a paragraph from its own dictionary form reproduces that dictionary form, whenever each
+   typed value is stable under parse-after-render (the theorems above give that class by class:
+   parse.render.parse = parse implies render.parse.render.parse = render.parse) and the extra data
+   is stable under decode-after-encode; the extra names are distinct, unknown to the paragraph type
+   and free of hyphens (as from_fields makes them) *)
+Theorem C13_from_dict_reproduces_to_dict : forall t known extra lines,
+  extra_keys_ok t extra ->
+  Forall (fun kv => enc (snd kv) <> [] /\
+                    as_formatted_text (from_formatted_text (as_formatted_text (snd kv))) = as_formatted_text (snd kv)) extra ->
+  Forall (fun kf => let raw := lookup (fst kf) known in RP (snd kf) (RP (snd kf) raw) = RP (snd kf) raw) (known_fields t) ->
+  let p := build_para t known extra lines in
+  para_to_dict (para_from_dict t (para_to_dict p)) = para_to_dict p.
+Proof. exact from_dict_to_dict. Qed.
+Print Assumptions C13_from_dict_reproduces_to_dict.
 
 (* a rendering whose paragraph renderings hold no empty line (and start and end with a character
    that is not a line feed) splits back into exactly those renderings: the same number of
